@@ -152,6 +152,16 @@ CLAIMED = {
         "Conditional on completion (non-convergence is counted, never a violation); degenerate near-zero pseudo-solutions of multiplicative equations are not judged; plans only with the nonlinear solver.",
         "DESIGN.md section 3, C05",
     ),
+    "C06": (
+        "Hypothesis-generated additive-linear, exactly log-linear and anchored nonlinear models; own evaluator residuals on returned paths frame by frame with the terminal condition rebuilt by the harness; differential vs first_order",
+        "For generated models with leads/lags, initial conditions, unanticipated shocks at several dates (several frames) and anticipated shocks, "
+        "stacked_time (terminal/initial_guess in {first_order, data}) and period_by_period runs that report success must satisfy every "
+        "transition equation as written to 10x the solver tolerance in every simulated period - leads read from the frame's own databox and, "
+        "after the span, from the terminal condition rebuilt by the harness - leave measurement variables at their inputs, write frames back "
+        "consistently, and on additive-linear and log-linear models coincide with method='first_order' for the same inputs.",
+        "Conditional on reported success (explicit solver tolerance 1e-9); mild nonlinearities only; deviation mode not generated.",
+        "DESIGN.md section 3, C06",
+    ),
 }
 
 NOT_BUILT_REASON = "check not built yet in this round (design in DESIGN.md section 3); not claimed until it is quiet on the unchanged tree and kills its mutants"
